@@ -91,7 +91,10 @@ def run_script(task, script, expect=None, changed=-1, stats=None, seen=None):
                         # canonical-state de-duplication: a state already explored with at least as
                         # many operations left and no more RNG deviations used has the same futures
                         used = sum(1 for p in src.points if p[2] != 0 and p[0] != "op")
-                        key = (d, used)
+                        # deepen() walks node_list[depth] in list order and the rotated randint menu assigns split
+                        # dimensions along it: the order inside each level is part of the state
+                        order = tuple(tuple(n.get_index() for n in lvl) for lvl in P.get_node_list())
+                        key = (d, used, hash(order))
                         remaining = task["N"] - step - 1
                         if seen.get(key, -1) >= remaining:
                             stats.bump("pruned_duplicate_states")
